@@ -27,7 +27,7 @@ def _same_note(symx, N, got, m):
     return c
 
 
-def ob_roundtrip(n, ncols, same, join, ohead, otail, upol, budget_s=120):
+def ob_roundtrip(n, ncols, same, join, ohead, otail, upol, kindset=5, shard=None, budget_s=120):
     """ungroup(group(stream)) == the included notes minus exactly the notes the orphan options drop, in the original order
     (per-type grouping: same multiset with beats non-decreasing)"""
     import z3
@@ -35,7 +35,9 @@ def ob_roundtrip(n, ncols, same, join, ohead, otail, upol, budget_s=120):
     G = mods["simfile.notes.group"]; N = mods["simfile.notes"]
 
     def run():
-        notes, meta = nc.gen_notes(symx, mods, n, ncols, nc.KINDS5)
+        if shard is not None:   # this obligation covers the streams whose first note has kind number `shard`
+            symx.CTL.assume(z3.Int("kind0") == shard)
+        notes, meta = nc.gen_notes(symx, mods, n, ncols, nc.kindlist(kindset, N.NoteType))
         kw = dict(same_beat_notes=G.SameBeatNotes[same], join_heads_to_tails=join,
                   orphaned_head=G.OrphanedNotes[ohead], orphaned_tail=G.OrphanedNotes[otail])
         st, groups = nc.reference_group(symx, meta, None, same, join, ohead, otail)
@@ -258,6 +260,15 @@ def obligations(tier):
                     obs.append(dict(name=f"roundtrip n={n} {same} join={join} head={oh} tail={ot} ungroup={up}", func="ob_roundtrip",
                                     args=(n, 2, same, join, oh, ot, up), budget_s=b,
                                     bounds=f"{n} notes, 2 columns, 5 kinds, symbolic beats with all tie patterns, head keysounds symbolic, tails without keysound"))
+    # every member of the NoteType enum (read from the source at run time) as a note kind
+    from simfile.notes import NoteType as _NT
+    allk = nc.kinds_all(_NT)
+    for same in nc.SAME:
+        for up in (("RAISE_EXCEPTION",) if tier == "quick" else nc.POL):
+            for k0 in range(len(allk)):
+                obs.append(dict(name=f"roundtrip n=3 all-kinds first={allk[k0]} {same} join=True head=KEEP_ORPHAN tail=KEEP_ORPHAN ungroup={up}", func="ob_roundtrip",
+                                args=(3, 2, same, True, "KEEP_ORPHAN", "KEEP_ORPHAN", up, "all", k0), budget_s=b,
+                                bounds=f"3 notes, 2 columns, every NoteType member ({len(allk)}) as a kind (first note: {allk[k0]}), symbolic beats with all tie patterns"))
     for k in ((3,) if tier == "quick" else (3, 4)):
         obs.append(dict(name=f"many_holds k={k}", func="ob_many_holds", args=(k, "RAISE_EXCEPTION"), budget_s=b,
                         bounds=f"{k} NoteWithTail on distinct columns with symbolic head/tail beats (every release order), then a tap on a free column"))
@@ -282,8 +293,8 @@ def replay(data):
     a = data["args"]; m = data["model"]
     g = lambda k, d="0": Fraction(m.get(k, d))
     if data["func"] == "ob_roundtrip":
-        n, ncols, same, join, oh, ot, up = a
-        notes = nc.model_notes(m, n, ncols, nc.KINDS5)
+        n, ncols, same, join, oh, ot, up = a[:7]
+        notes = nc.model_notes(m, n, ncols, nc.kindlist(a[7] if len(a) > 7 else 5, NoteType))
         kw = dict(same_beat_notes=G.SameBeatNotes[same], join_heads_to_tails=join, orphaned_head=G.OrphanedNotes[oh], orphaned_tail=G.OrphanedNotes[ot])
         st, groups = nc.concrete_reference(notes, None, same, join, oh, ot)
         try:
